@@ -10,3 +10,19 @@ import Ark.Props.C15
 #print axioms Ark.Props.C15.shrink_free_keeps_index
 #print axioms Ark.Props.C15.shrink_locked
 #print axioms Ark.Props.C15.shrink_idempotent
+#print axioms Ark.Props.C15.world_shrink_is_pure
+#print axioms Ark.Props.C15.world_shrink_invisible
+#print axioms Ark.Props.C15.world_shrinkRel_frame
+#print axioms Ark.Props.C15.world_shrinkRel_table
+#print axioms Ark.Props.C15.world_shrinkRel_arch_cache
+#print axioms Ark.Props.C15.world_shrinkRel_getRelation
+#print axioms Ark.Props.C15.world_shrinkRel_alive
+#print axioms Ark.Props.C15.world_shrink_keeps_structure
+#print axioms Ark.Props.C15.world_shrink_caps
+#print axioms Ark.Props.C15.world_shrink_unbounded_no_work
+#print axioms Ark.Props.C15.world_shrink_result_exact
+#print axioms Ark.Props.C15.world_shrink_bounded_one_step
+#print axioms Ark.Props.C15.world_shrink_progress
+#print axioms Ark.Props.C15.world_shrink_converges
+#print axioms Ark.Props.C15.world_shrink_converges_fuel
+#print axioms Ark.Props.C15.world_shrink_converges_structure
